@@ -462,6 +462,12 @@ func (m *{{ .Name }}) MarshalJSON() ([]byte, error) {
 		if err != nil {
 			return nil, err
 		}
+		if len(key) == 0 || key[0] != '"' {
+			// JSON object keys must be strings.
+			if key, err = json.Marshal(string(key)); err != nil {
+				return nil, err
+			}
+		}
 		buf.Write(key)
 		buf.WriteRune(':')
 
